@@ -34,6 +34,17 @@ func runner(id int) func(chan<- int) {
 	return func(out chan<- int) { out <- k + id }
 }
 
+// accum is started by go statements although it has a (named) result, which it
+// uses as its accumulator: the result variable must be the goroutine's own.
+func accum(id, n int, res []int, wg *sync.WaitGroup) (r int) {
+	defer wg.Done()
+	for i := 0; i < n; i++ {
+		r += id + 1
+	}
+	res[id] = r
+	return r
+}
+
 type acc struct{ v int }
 
 func (a *acc) bump(d int) func() int {
@@ -78,4 +89,13 @@ func Run() {
 		s += <-out
 	}
 	host.Emit(2, s)
+	res2 := make([]int, n)
+	for w := 0; w < n; w++ {
+		wg.Add(1)
+		go accum(w, 3+rounds, res2, &wg)
+	}
+	wg.Wait()
+	for _, v := range res2 {
+		host.Emit(3, v)
+	}
 }
